@@ -93,14 +93,18 @@ class SliceInner:
 def _slice_inner(slize: Slice) -> SliceInner:
     """Calculate the inner resolved fields for `slize`"""
 
+    from .elab.helpers.width import width as width_of
+
     parent = slize.parent
     index = slize.index
+    # The parent's width. Note parents which are references do not have a `width` attribute.
+    parent_width = width_of(parent)
 
     if isinstance(index, int):
-        if index >= parent.width:
+        if index >= parent_width or index < -parent_width:
             raise ValueError(f"Out-of-bounds index {index} into {parent}")
         if index < 0:
-            index += parent.width
+            index += parent_width
         return SliceInner(top=index + 1, bot=index, step=1, width=1)
 
     if isinstance(index, slice):
@@ -116,18 +120,18 @@ def _slice_inner(slize: Slice) -> SliceInner:
         elif step < 0:
             # Here `top` gets a "+1" since `start` is *inclusive*, while `bot` gets "+1" as `stop` is *exclusive*.
             top = (
-                parent.width
+                parent_width
                 if start is None
                 else start + 1
                 if start >= 0
-                else parent.width + start + 1
+                else parent_width + start + 1
             )
             bot = (
                 0
                 if stop is None
                 else stop + 1
                 if stop >= 0
-                else parent.width + stop + 1
+                else parent_width + stop + 1
             )
             # Align bot with the step
             bot += (top - bot) % abs(step)
@@ -135,15 +139,19 @@ def _slice_inner(slize: Slice) -> SliceInner:
             # Here `start` and `stop` match `top` and `bot`'s inclusive/exclusivity.
             # No need to add any offsets.
             top = (
-                parent.width
+                parent_width
                 if stop is None
                 else stop
                 if stop >= 0
-                else parent.width + stop
+                else parent_width + stop
             )
-            bot = 0 if start is None else start if start >= 0 else parent.width + start
+            bot = 0 if start is None else start if start >= 0 else parent_width + start
             # Align top with the step
             top -= (top - bot) % step
+
+        if bot < 0 or top > parent_width or top <= bot:
+            msg = f"Out-of-bounds or empty slice {start}:{stop}:{step} into {parent}"
+            raise ValueError(msg)
 
         width = (top - bot) // step
 
